@@ -160,6 +160,12 @@ func genC15(r *rand.Rand, tier string, env *Env) []Case {
 		}
 		cmds = append(cmds, []string{"regex", "format", "../../../x.ra"}, []string{"regex", "format", "../../" + conf}, []string{"regex", "format", "../notes.txt"},
 			[]string{"regex", "format", "readme.md"}, []string{"regex", "format", "../" + ra.arg + ".ra"}, []string{"regex", "format", "-c", "../../../x.ra"})
+		// … and renumber-tests with the test files of its tests directory (D30): the sandbox has misnumbered test files
+		// outside the root (`beside/tests/regression/tests/R/942100.yaml`, reached with five `..` from the `*` of the
+		// pattern) and the tree may have one elsewhere below the root
+		cmds = append(cmds, []string{"util", "renumber-tests", "../../../../../../beside/tests/regression/tests/R/942100"},
+			[]string{"util", "renumber-tests", "../../../../../tests/regression/tests/R/920100.yaml"},
+			[]string{"util", "renumber-tests", "../../../../docs/942999"})
 		// targets that do not exist: nothing may be created for them
 		cmds = append(cmds, []string{"regex", "format", "-c", "999999"}, []string{"regex", "format", "999999"}, []string{"regex", "format", "-c", "nosuchinclude"},
 			[]string{"regex", "generate", "999999"}, []string{"regex", "update", "999999"}, []string{"regex", "compare", "999999"},
